@@ -11,7 +11,7 @@ SimInit == Init /\ hist = <<>> /\ printed = FALSE
 \* (an invariant would be evaluated, and print, for every candidate successor)
 \* \E over singletons binds each random draw once, so that one step costs one evaluation (every step is a Next step)
 SimStep ==
-    \E c \in {RandomElement(CtxSet)}, kd \in {RandomElement(1..13)}, s2 \in {RandomElement(Scripts)}, k2 \in {RandomElement(Classes)}, cnd \in {RandomElement(BOOLEAN)}, s \in {RandomElement(Scripts)}, S \in {RandomElement(OnSeqs)},
+    \E c \in {RandomElement(CtxSet)}, kd \in {RandomElement(1..14)}, s2 \in {RandomElement(Scripts)}, k2 \in {RandomElement(Classes)}, cnd \in {RandomElement(BOOLEAN)}, s \in {RandomElement(Scripts)}, S \in {RandomElement(OnSeqs)},
        e \in {RandomElement(ClassExprs)}, k \in {RandomElement(Classes)}, h \in {RandomElement(BlockHandles \cup ZeroHandles)},
        g \in {RandomElement(FixedHandles)} :
         IF kd = 1 THEN RenderScriptComponent(c, s)
@@ -20,6 +20,7 @@ SimStep ==
         ELSE IF kd = 6 THEN ElementWithClassAndOn(c, k, s)
         ELSE IF kd = 12 THEN ElementWithCondOn(c, cnd, s, s2)
         ELSE IF kd = 13 THEN ElementWithCondClass(c, cnd, k, k2)
+        ELSE IF kd = 14 THEN \E h2 \in {RandomElement(BlockHandles \cup ZeroHandles)} : OnceNested(c, h, h2)
         ELSE IF kd = 7 THEN Once(c, "OnceWithBlock", h)
         ELSE IF kd = 8 THEN Once(c, "OnceWithComponent", g)
         ELSE IF kd = 9 /\ \E d \in CtxSet : mode[d] = "mw" THEN StylesheetRequest
